@@ -19,11 +19,16 @@
    CPD-product joint).  Proved instead: the parent-set instance UNBOUNDED (C13_single_do_parent_adjustment) and
    the statement for every valid set on a finite domain (C13_backdoor_adjustment_is_truncated_upto3_grid); for
    other sets on larger networks the run-time correspondence (every enumerated back-door set of every generated
-   network, both back-ends) ties pgmpy to the truncated factorisation. *)
+   network, both back-ends) ties pgmpy to the truncated factorisation.
+   PROVED UNBOUNDED since (section 6): the adjustment FORMULA itself, for every DAG of every size and every set Z that
+   passes pgmpy's own test is_valid_backdoor and contains no descendant of x (C13_backdoor_adjustment_formula, from
+   the factorisation / global Markov theorem of Base/Markov.v); what remains finite-domain is only the link from
+   that formula to the literal loop of [query] on a [bnet]. *)
 From Coq Require Import List Bool Arith PeanoNat QArith Qcanon.
 From PV Require Import Base.Reach Base.Graph Base.Semiring Base.Ravel Base.FinSum Base.RefFactor
   C08.Model C08.Spec C13.Model C13.Spec C13.ProofsDo C13.ProofsTrunc C13.ProofsAdj C13.ProofsAdjLift C13.Finite C13.ProofsRefuted
-  C13.ProofsSum C13.ProofsAdjU C13.ProofsAdjEx C13.ProofsCrit C13.ProofsCritLift C13.ProofsBdGrid C13.ProofsBdGridLift.
+  C13.ProofsSum C13.ProofsAdjU C13.ProofsAdjEx C13.ProofsCrit C13.ProofsCritLift C13.ProofsBdGrid C13.ProofsBdGridLift
+  C13.ProofsBackdoorAll.
 From Coq Require Import Permutation.
 Import ListNotations.
 Local Close Scope Q_scope.
@@ -288,3 +293,45 @@ Theorem C13_minimal_adjustment_refuted :
     backdoor_criterionb g x y [1%nat] = true.
 Proof. exact minimal_adjustment_refuted. Qed.
 Print Assumptions C13_minimal_adjustment_refuted.
+
+
+(* ================================================================== 6. the back-door adjustment formula, unbounded *)
+Local Close Scope Qc_scope.
+(* For EVERY well-formed DAG g (any number of nodes, any cardinalities), every family F of conditional distributions
+   along g (F v looks at v and its parents only and sums to one over v: the CPDs of a Bayesian network), every
+   intervened node x and value xv, every outcome set Y and every adjustment set Z such that
+     - pgmpy's own test accepts Z for every y in Y:  is_valid_backdoor g x y Z = true  (every parent of x is
+       d-separated from y given x :: Z, by the verified worklist of C08),
+     - no node of Z is a descendant of x,
+     - P(x = xv, z) <> 0 for every z (the divisions the engine performs are defined),
+   the adjustment formula equals the truncated factorisation:
+       sum_z  P(y, xv, z) / P(xv, z) * P(z)  =  sum_rest prod_{v <> x} F_v   at x = xv
+   ([marg .. S] = the marginal of the product of all F over S, [trunc .. x Y] = the truncated factorisation summed over
+   everything outside x :: Y; both as functions of an assignment).  Proof: Base/Backdoor.v -- the do-network
+   (point mass at xv for x) has the same A/B factorisation as the original one (Base/Markov.v) because the CPD
+   of x is on the side away from Y; intervening does not change the marginal of non-descendants. *)
+Theorem C13_backdoor_adjustment_formula :
+  forall (card : var -> nat) (g : digraph) (F : var -> asg -> Qc) (x : node) (xv : nat) (Y Z : list node) (a : asg),
+  wf_graph g -> acyclic g ->
+  (forall v, In v (nodes g) -> @depends_only Qc_sum_csr (F v) (v :: parents g v)) ->
+  (forall v, In v (nodes g) -> forall b, valid card b -> @sum_over Qc_sum_csr [v] [card v] (F v) b = 1%Qc) ->
+  In x (nodes g) -> xv < card x ->
+  (forall y, In y Y -> In y (nodes g) /\ ~ In y (x :: Z)) ->
+  NoDup Z /\ incl Z (nodes g) /\ ~ In x Z ->
+  (forall y, In y Y -> is_valid_backdoor g x y Z = true) ->
+  (forall z, In z Z -> ~ dpath g x z) ->
+  valid card a -> a x = xv ->
+  (forall b, valid card b -> b x = xv -> PV.Base.Markov.marg Qc_sum_csr card g F (x :: Z) b <> 0%Qc) ->
+  @sum_over Qc_sum_csr Z (map card Z)
+     (fun b => (PV.Base.Markov.marg Qc_sum_csr card g F (Y ++ x :: Z) b / PV.Base.Markov.marg Qc_sum_csr card g F (x :: Z) b
+                * PV.Base.Markov.marg Qc_sum_csr card g F Z b)%Qc) a
+  = PV.Base.Backdoor.trunc Qc_sum_csr card g F x Y a.
+Proof. exact backdoor_adjustment_formula. Qed.
+Print Assumptions C13_backdoor_adjustment_formula.
+
+(* non-vacuity: U -> X, U -> Y, X -> Y: {U} passes the test and is no descendant of X; the empty set fails *)
+Example C13_backdoor_formula_nonvacuous :
+  let g := {| nodes := [0; 1; 2]; edges := [(1, 0); (1, 2); (0, 2)] |}%nat in
+  wf_graph g /\ acyclic g /\ is_valid_backdoor g 0 2 [1%nat] = true /\ is_valid_backdoor g 0 2 [] = false /\
+  (forall z, In z [1%nat] -> ~ dpath g 0 z).
+Proof. exact backdoor_formula_nonvacuous. Qed.
